@@ -56,6 +56,23 @@ func gen(t *rapid.T) peng.Case {
 		if rapid.IntRange(0, 9).Draw(t, fmt.Sprintf("pre%d", i)) == 0 {
 			op.Call.Ctx, op.CancelUs, op.Call.DeadlineUs = "precancelled", 0, 0
 		}
+		// a server stream that never stops, consumed by a slow quorum function that never reports done:
+		// the reply channel of the call is never empty when its context ends
+		if scen.IsStream(op.Call.Kind) && rapid.IntRange(0, 2).Draw(t, fmt.Sprintf("endless%d", i)) == 0 {
+			for s := range op.Behav {
+				op.Behav[s] = scen.Behaviour{Release: "early", StreamEndless: true, Stream: []scen.StreamItem{{Level: 1}}}
+			}
+			op.Call.Script = scen.QScript{Kind: "never", SlowUs: rapid.SampledFrom([]int{300, 1000, 2500}).Draw(t, fmt.Sprintf("endlessSlow%d", i))}
+			if op.Call.Ctx == "precancelled" {
+				op.Call.Ctx, op.CancelUs = "cancel", 3000
+			}
+			if op.Call.Ctx == "deadline" && op.Call.DeadlineUs < 2000 {
+				op.Call.DeadlineUs = 4000
+			}
+			if op.Call.Ctx == "cancel" && op.CancelUs < 2000 {
+				op.CancelUs = 4000
+			}
+		}
 		// handlers of never-answering nodes release and then hold
 		for s := 0; s < c.N; s++ {
 			if state[s] == "never-answering" {
@@ -100,6 +117,14 @@ func run(c peng.Case) vt.Verdict {
 	}
 	if never {
 		classes = append(classes, "never-answering-node")
+	}
+	for _, op := range c.Ops {
+		for _, b := range op.Behav {
+			if b.StreamEndless {
+				flood = true
+				classes = append(classes, "endless-stream-slow-qf")
+			}
+		}
 	}
 	if len(r.HungCtx) > 0 {
 		h := r.HungCtx[0]
